@@ -119,7 +119,21 @@ def run(ctx):
     # defaults
     defaults = {a.targets[0].id: a.value for a in walk_no_nested(r.node) if isinstance(a, ast.Assign) and isinstance(a.targets[0], ast.Name)
                 and a.targets[0].id in ("name", "description") and not isinstance(a.value, ast.Call)}
-    if "description" in defaults and const_value(ctx.program, r, defaults["description"]) == "":
+    # ... for every filter anew: the default is set inside the loop over the parsed commands
+    outer = [lp for lp in walk_no_nested(r.node) if isinstance(lp, ast.For) and "result" in norm(lp.iter)]
+    per_filter = {}
+    for a in walk_no_nested(r.node):
+        if isinstance(a, ast.Assign) and isinstance(a.targets[0], ast.Name) and a.targets[0].id in ("name", "description") \
+                and not isinstance(a.value, ast.Call) and outer and any(x is a for x in outer[0].body):
+            per_filter[a.targets[0].id] = a
+    if "description" in defaults and const_value(ctx.program, r, defaults["description"]) == "" and outer and "description" not in per_filter:
+        ctx.violation("N1", r, "description-default-once", "the loader sets the default description once, before the loop over the commands: a "
+                      "filter without description inherits the description of the filter before it", node=r.node,
+                      witness="two filters, only the first with a description: after a reload both carry it")
+    elif "name" in defaults and outer and "name" not in per_filter:
+        ctx.violation("N1", r, "name-default-once", "the loader sets the default name once, before the loop over the commands: a "
+                      "filter without name comment inherits the name of the filter before it", node=r.node)
+    elif "description" in defaults and const_value(ctx.program, r, defaults["description"]) == "":
         ctx.holds("N1", "loader defaults description to ''")
     else:
         ctx.violation("N1", r, "description-default", "the loader does not default a missing description to the empty string", node=r.node)
